@@ -2,7 +2,7 @@
 from __future__ import annotations
 import ast
 from typing import List, Dict
-from ..model import Model, FuncInfo, own_nodes, norm_stmt, AnalysisError, AnchorError
+from ..model import Model, FuncInfo, own_nodes, norm_stmt, AnalysisError, AnchorError, enclosing_stmt
 from ..report import RuleResult
 from ..flow import VN, names_loaded, function_defs, test_on_name
 from ..callgraph import resolve_call, reachable_functions
@@ -95,6 +95,11 @@ def _check_shape(f: FuncInfo, SH: RuleResult):
     if x0 is None:
         raise AnalysisError("%s: no initial-guess parameter" % f.fq)
     defs = function_defs(fn)
+    # the shape that is restored must be the shape of the caller's initial guess: the parameter is never re-bound
+    reb = [n for n in ast.walk(fn) if isinstance(n, ast.Name) and isinstance(n.ctx, ast.Store) and n.id == x0]
+    if reb:
+        SH.bad(f, enclosing_stmt(reb[0]), "the initial-guess parameter `%s` is re-bound inside the solver: the shape restored at the end is that of the re-bound value, not "
+               "of the caller's tensor (e.g. a 0-dim guess comes back with shape (1,))" % x0)
     shape_names = set()
     for nm, vals in defs.items():
         for v in vals:
